@@ -332,6 +332,13 @@ def run(chk):
             fixed.append(nest(kind, n).encode())
     fixed += [b'"%( ' + b"(" * 12000 + b"1" + b")" * 12000 + b' %)"', b"1 " * 9000 + b'"%( ' + b"2 " * 9000 + b' %)"', b"{" * 6000 + b"}" * 6000, b"1 drop " * 6000 + b"1",
               b"let A := " * 4000 + b"1" + b" ;" * 4000, b"-" * 20000 + b"1", b"1" * 30000, b'"' + b"a" * 100000 + b'"', b"/*" + b"x" * 100000 + b"*/ 1", b"?" * 10000, b"1 " + b"*" * 20000]
+    # named constants pushed out of the range their domain can name (negative, 2^31 and above, 2^32 and above): whatever they are rendered as,
+    # every API call that formats them answers through its return value
+    for w in ("DW_AT_name", "DW_TAG_base_type", "DW_OP_addr", "DW_FORM_data1", "DW_ATE_signed", "DW_LANG_C99", "DW_INL_inlined", "DW_ACCESS_public", "DW_VIRTUALITY_none",
+              "DW_DEFAULTED_no", "DW_END_big", "DW_LLE_end_of_list", "STT_FUNC", "STB_GLOBAL", "STV_DEFAULT", "T_CONST", "true"):
+        for t in ("%s -5 add", "%s 0x7fffffff add", "%s 0x80000000 add", "%s 0x100000000 mul", "[%s -5 add]", '%s -5 add "%%s"', "%s 1 sub 1 sub 1 sub 1 sub 1 sub", "%s 0xffffffffffff0000 add",
+                  "%s -5 add type", "%s -5 add dup ?eq", "%s 0x80000000 add hex", "%s -1 mul"):
+            fixed.append((t % w).encode())
     jobs = [("fixed", 1, fixed[i:i + 200]) for i in range(0, len(fixed), 200)]
     nm = 30000 if quick else 600000
     jobs += [("mutants", chk.seed * 6700417 + i, 500) for i in range(nm // 500)]
